@@ -44,9 +44,9 @@ vfps::ResistiveWall::__calcImpedance(const size_t n,
             ) * impedance_t(1,-1);
 
     // frequency resolution: impedance will be sampled at multiples of delta
-    const frequency_t delta = f_max/f0/(n-1.0);
+    const frequency_t delta = (n > 1) ? f_max/f0/(n-1.0) : 0;
 
-    for (size_t i=0; i<=n/2; i++) {
+    for (size_t i=0; i<=n/2 && i<n; i++) {
         rv.push_back(Z1*std::sqrt(i*delta));
     }
     for (size_t i=n/2+1; i<n; i++) {
